@@ -36,6 +36,11 @@ CLAIMS = {
             "(pos+1 / pos+mask+1 with mask = capacity-1), same cell index everywhere, full/empty returned only under the stated tests with a "
             "fresh load, acquire/release floor on the sequence word. Not decided: linearizability across wrap-around.",
             "static analysis: path enumeration with value numbering + affine normal forms (writer/reader agreement)", "DESIGN.md §4 C07"),
+    "C09": ("other", "TreiberStack (HP/DHP): a top pointer read from the shared atomic is dereferenced only after hazard-pointer protection on every "
+            "path (typestate over paths); elimination back-off: slot record accessed only under the slot lock, lock balanced, active collision "
+            "hands over / empties the slot / releases the partner in that order and only for a push meeting a pop; FCStack collide pairs a push "
+            "with a pop, completes both once, API op-codes agree with fc_apply. Linearizability is not decided.",
+            "static analysis: path typestate (guard discipline), lockset and ordering rules over clang-extracted CFGs", "DESIGN.md §4 C09"),
     "C10": ("other", "Decision table over every path of FCDeque::fc_process: each collision row (op-codes recovered from the path, ends derived "
             "from fc_apply) is push/pop in the right argument order and either same-end or guarded by m_Deque.empty(); collided record is "
             "forgotten; collide() completes both records once and hands the value over; the op-code each public method publishes is executed "
